@@ -187,8 +187,8 @@ func coqMsg(m message.Message) string {
 }
 
 func obsErr(ty string, class uint64) string { return fmt.Sprintf("(OErr %d : obs %s)", class, ty) }
-func obsPanic(ty string) string            { return fmt.Sprintf("(OPanic : obs %s)", ty) }
-func obsOk(ty, v string) string            { return fmt.Sprintf("(OOk %s : obs %s)", v, ty) }
+func obsPanic(ty string) string             { return fmt.Sprintf("(OPanic : obs %s)", ty) }
+func obsOk(ty, v string) string             { return fmt.Sprintf("(OOk %s : obs %s)", v, ty) }
 
 // ---------------------------------------------------------------------------
 // error classes (the numbers of coq/lib/Cbor.v)
